@@ -1,16 +1,16 @@
 SPECIFICATION MCSpec
 CONSTANTS
-  Chunks = {1}
+  Chunks = {1, 2, 3}
   Addrs = {1}
   Hdrs = {"none"}
-  MaxNow = 5
+  MaxNow = 0
   Window = 3
-  Limit = 2
-  FLimit = 2
+  Limit = 3
+  FLimit = 3
   TokenCfg = FALSE
-  PowOn = TRUE
-  Families = {"rate"}
-  RateCmds = {"STORE"}
+  PowOn = FALSE
+  Families = {"frame"}
+  RateCmds = {}
   MaxHist = 99
   CheckLemma = FALSE
   DevStopUnchecked = FALSE
@@ -18,10 +18,10 @@ CONSTANTS
   DevFetchLateAuth = FALSE
   DevRateKeyHeader = FALSE
   DevRefundOnRefusal = FALSE
-  RateBad = TRUE
-  DevTrimValues = FALSE
+  RateBad = FALSE
+  DevTrimValues = TRUE
   DevRawNewlines = FALSE
-INVARIANTS C27_Refused C27_NoEffect C28_Admission C28_BeforeBody C28_Rate C29_RoundTrip C29_ListComplete
+INVARIANTS C29_RoundTrip
 VIEW View
 CONSTRAINT Bound
 CHECK_DEADLOCK FALSE
